@@ -519,16 +519,19 @@ func (d *Decoder) LoadParityData() error {
 				return nil, err
 			}
 
-			if d.sliceByteCount != parityFile.mainPacket.sliceByteCount {
-				return nil, errors.New("slice byte count mismatch")
-			}
+			// A volume need not repeat the main packet.
+			if parityFile.mainPacket != nil {
+				if d.sliceByteCount != parityFile.mainPacket.sliceByteCount {
+					return nil, errors.New("slice byte count mismatch")
+				}
 
-			if !reflect.DeepEqual(decoderInputFileInfoIDs(d.recoverySet), parityFile.mainPacket.recoverySet) {
-				return nil, errors.New("recovery set mismatch")
-			}
+				if !reflect.DeepEqual(decoderInputFileInfoIDs(d.recoverySet), parityFile.mainPacket.recoverySet) {
+					return nil, errors.New("recovery set mismatch")
+				}
 
-			if !reflect.DeepEqual(decoderInputFileInfoIDs(d.nonRecoverySet), parityFile.mainPacket.nonRecoverySet) {
-				return nil, errors.New("non-recovery set mismatch")
+				if !reflect.DeepEqual(decoderInputFileInfoIDs(d.nonRecoverySet), parityFile.mainPacket.nonRecoverySet) {
+					return nil, errors.New("non-recovery set mismatch")
+				}
 			}
 
 			return &parityFile, nil
